@@ -61,6 +61,8 @@ fn main() {
                 max_wall_s: 0,
                 write_evidence: true,
                 no_ref: false,
+                scale: 1.0,
+                profile_tag: if cfg!(debug_assertions) { "dev".into() } else { "nodebug".into() },
             };
             let mut file: Option<String> = None;
             let mut i = 3;
@@ -87,6 +89,7 @@ fn main() {
                     "--verif-dir" => opt.verif_dir = val(),
                     "--no-evidence" => opt.write_evidence = false,
                     "--no-ref" => opt.no_ref = true,
+                    "--scale" => opt.scale = val().parse().unwrap_or_else(|_| usage()),
                     "--max-wall" => opt.max_wall_s = val().parse().unwrap_or_else(|_| usage()),
                     other if !other.starts_with("--") && file.is_none() => file = Some(other.to_string()),
                     _ => usage(),
